@@ -185,11 +185,14 @@ def schema_wkimp():
             'message Ping { int32 seq = 1; bytes body = 2; }\n' % PKG_ROOT)
 
 
-def random_schema(pkg, rnd):
+def random_schema(pkg, rnd, salt=0):
     """A schema drawn from the grammar: kind x label x option x oneof membership x numbering x order x nesting."""
     nmsg = rnd.randint(2, 4)
     names = ["M%d" % i for i in range(nmsg)]
-    s = header(pkg) + "enum E { Z = 0; A = 1; B = 2; N = -3; }\n"
+    # a second stream decides which message-typed fields become Timestamp/Duration casts (picoconv), so that the
+    # structure drawn from the first stream stays what it was before casts entered the grammar
+    rnd2 = random.Random("casts:%s:%s" % (pkg, salt))
+    s = header(pkg) + "enum E { Z = 0; A = 1; B = 2; N = -3; }\nmessage Stamp { int64 seconds = 1; int32 nanos = 2; }\n"
     for mi, name in enumerate(names):
         capture = rnd.random() < 0.25
         msg_ap = rnd.random() < 0.15
@@ -221,6 +224,12 @@ def random_schema(pkg, rnd):
                 tgt = rnd.choice(names)
                 ty = tgt
                 opts = [] if (names.index(tgt) <= mi) else opts
+                if rnd2.random() < 0.3:
+                    ty = "Stamp"
+                    c = rnd2.choice([("time.Time", "Timestamp"), ("time.Duration", "Duration")])
+                    opts = ['(pico.field).custom_type = "%s"' % c[0], '(pico.field).custom_serialize = "storj.io/picobuf/picoconv.%s"' % c[1]]
+                    if rnd2.random() < 0.5:
+                        opts.insert(0, "(pico.field).always_present = true")
             elif kind == "E":
                 ty = "E"
                 if label == "optional":
@@ -240,7 +249,7 @@ def random_schema(pkg, rnd):
                     fn, t, lab, n, o, kd = fields[j]
                     if kd == "map" or lab == "repeated":
                         break
-                    body += "    %s %s = %d;\n" % (t, fn, n)
+                    body += "    %s %s = %d%s;\n" % (t, fn, n, (" [" + ", ".join(o) + "]") if o else "")
                     cnt += 1
                 body += "  }\n"
                 in_oneof += 1
@@ -349,5 +358,5 @@ def standard_set(seed, n_random):
     sch = fixed_schemas()
     rnd = random.Random(seed)
     for i in range(n_random):
-        sch["r%d" % i] = random_schema("r%d" % i, rnd)
+        sch["r%d" % i] = random_schema("r%d" % i, rnd, seed)
     return sch
